@@ -12,6 +12,13 @@
 //    exactly 2 / 0.5 times every triplet and rhs entry before finalize())
 // SOLVE kind tol maxit <ASM body>   kind: 0 solveStar(params) 1 solve 2 solveWithPenalty 3 solveStar(pl) 4 solveB2B(pl,tg,st)
 //   result: for each factor in 1 2 0.25 1024 2.5 7 2^-20 2^-24: the result vector as float bit patterns, separated by " | "
+// FASM k <ASM body>   the assembled system (after finalize()) as binary32 bit patterns, with every net weight and penalty strength
+//   multiplied by 2^0 and by 2^k (std::ldexp: exact unless it underflows/overflows); here a rational "num e" may have e < 0 or
+//   e > 24 (tiny / huge weights).  result: "n pre | r c bits;... | bits;... (rhs) | bits;... (initial) | bits;... (netWeight)" for
+//   factor 1, then " || " and the same for factor 2^k        (tie with the Flocq model coq/QuadFloat.v, bit for bit)
+// SOLVEK k kind tol maxit <ASM body>   as SOLVE, for the factors 2^0 and 2^k only (std::ldexp on every weight and strength; "num e" may
+//   have any e): the two result vectors as float bit patterns, separated by " | "   (range of k in which the conjugate gradient
+//   is scale-covariant: design/C17.md, "What the theorem does not give")
 // PLACE netmodel seed maxsteps W nrows rowh ncells {w fixed x y}* nnets { np w4 {cell xo yo}* }*
 //   result: per factor in 1 2 0.5 2.5 7 (weights and penalty.initialValue times the factor):
 //     "T x y x y ... ;" per callback and at the end; then " # W " netWeight read back from x/yTopology at factor 1
@@ -71,8 +78,7 @@ static NetModel buildNM(const Body &b, float f) {
 static NetModelOption optOf(int mode) { return mode == 1 ? NetModelOption::BoundToBound : mode == 2 ? NetModelOption::Star : mode == 3 ? NetModelOption::Clique : NetModelOption::LightStar; }
 
 struct Sys { std::vector<Eigen::Triplet<float>> mat; std::vector<float> rhs, init; size_t pre; bool inexact; };
-__attribute__((noinline)) static Sys assemble(const NetModel &nm, const Body &b, float f) {
-  std::vector<float> st = b.st; for (auto &s : st) s *= f;
+__attribute__((noinline)) static Sys assembleSt(const NetModel &nm, const Body &b, const std::vector<float> &st) {
   std::feclearexcept(FE_ALL_EXCEPT);
   MatrixCreator mc = b.mode == 0 ? MatrixCreator::createStar(nm)
                    : b.mode <= 4 ? MatrixCreator::create(nm, b.pl, b.eps, optOf(b.mode)) : MatrixCreator(nm);
@@ -84,6 +90,10 @@ __attribute__((noinline)) static Sys assemble(const NetModel &nm, const Body &b,
   s.inexact = std::fetestexcept(FE_INEXACT) != 0;
   s.mat = mc.mat_; s.rhs = mc.rhs_; s.init = mc.initial_;
   return s;
+}
+static Sys assemble(const NetModel &nm, const Body &b, float f) {
+  std::vector<float> st = b.st; for (auto &s : st) s *= f;
+  return assembleSt(nm, b, st);
 }
 static std::string homog(const Sys &a, const Sys &k, float f) {
   char buf[256];
@@ -114,6 +124,29 @@ static void runAsm(Rd &r) {
   printf("%s\n", out.c_str());
 }
 
+static std::string bitsf(float v) { uint32_t u; memcpy(&u, &v, 4); char b[16]; snprintf(b, 16, "%08x", u); return b; }
+static void runFasm(Rd &r) {
+  int k = (int)r.nx();
+  Body b = readBody(r);
+  std::string out;
+  for (int pass = 0; pass < 2; ++pass) {
+    int kk = pass ? k : 0;
+    NetModel nm(b.nc);
+    for (auto &n : b.nets) { float w = std::ldexp(n.w, kk); if (n.fx) nm.addNet(n.cells, n.offs, n.mn, n.mx, w); else nm.addNet(n.cells, n.offs, w); }
+    nm.check();
+    std::vector<float> st = b.st; for (auto &s : st) s = std::ldexp(s, kk);
+    Sys s = assembleSt(nm, b, st);
+    char buf[96];
+    if (pass) out += " || ";
+    snprintf(buf, 96, "%zu %zu | ", s.rhs.size(), s.pre); out += buf;
+    for (size_t i = 0; i < s.mat.size(); ++i) { snprintf(buf, 96, "%s%d %d %s", i ? ";" : "", s.mat[i].row(), s.mat[i].col(), bitsf(s.mat[i].value()).c_str()); out += buf; }
+    out += " | "; for (size_t i = 0; i < s.rhs.size(); ++i) { out += (i ? ";" : ""); out += bitsf(s.rhs[i]); }
+    out += " | "; for (size_t i = 0; i < s.init.size(); ++i) { out += (i ? ";" : ""); out += bitsf(s.init[i]); }
+    out += " | "; for (int i = 0; i < nm.nbNets(); ++i) { out += (i ? ";" : ""); out += bitsf(nm.netWeight(i)); }
+  }
+  printf("%s\n", out.c_str());
+}
+
 static const float kSolveFactors[8] = {1.0f, 2.0f, 0.25f, 1024.0f, 2.5f, 7.0f, 1.0f / 1048576.0f, 1.0f / 16777216.0f};   // the last two: 2^-20, 2^-24 (tiny common factors, e.g. weights normalised to sum to one)
 static void runSolve(Rd &r) {
   int kind = (int)r.nx(); float tol = r.q(); int maxit = (int)r.nx();
@@ -133,6 +166,30 @@ static void runSolve(Rd &r) {
     else res = nm.solveB2B(b.pl, b.tg, st, p);
     if (k) out += " | ";
     for (size_t i = 0; i < res.size(); ++i) { uint32_t u; memcpy(&u, &res[i], 4); char buf[16]; snprintf(buf, 16, "%s%08x", i ? " " : "", u); out += buf; }
+  }
+  printf("%s\n", out.c_str());
+}
+
+static void runSolveK(Rd &r) {
+  int k = (int)r.nx(); int kind = (int)r.nx(); float tol = r.q(); int maxit = (int)r.nx();
+  Body b = readBody(r);
+  std::string out;
+  for (int pass = 0; pass < 2; ++pass) {
+    int kk = pass ? k : 0;
+    NetModel nm(b.nc);
+    for (auto &n : b.nets) { float w = std::ldexp(n.w, kk); if (n.fx) nm.addNet(n.cells, n.offs, n.mn, n.mx, w); else nm.addNet(n.cells, n.offs, w); }
+    nm.check();
+    std::vector<float> st = b.st; for (auto &s : st) s = std::ldexp(s, kk);
+    NetModel::Parameters p; p.netModel = optOf(b.mode); p.approximationDistance = b.eps; p.penaltyCutoffDistance = b.cutoff;
+    p.tolerance = tol; p.maxNbIterations = maxit;
+    std::vector<float> res;
+    if (kind == 0) res = nm.solveStar(p);
+    else if (kind == 1) res = nm.solve(b.pl, p);
+    else if (kind == 2) res = nm.solveWithPenalty(b.pl, b.tg, st, p);
+    else if (kind == 3) res = nm.solveStar(b.pl, p);
+    else res = nm.solveB2B(b.pl, b.tg, st, p);
+    if (pass) out += " | ";
+    for (size_t i = 0; i < res.size(); ++i) { out += (i ? " " : ""); out += bitsf(res[i]); }
   }
   printf("%s\n", out.c_str());
 }
@@ -176,6 +233,8 @@ static void runPlace(Rd &r) {
 }
 
 // ---------------------------------------------------------------- generators
+static int gWShift = 0;   // FASM only: every weight and penalty strength is divided by 2^gWShift (0 for the other streams)
+static std::string qstrw(long long n, int e) { if (!gWShift) return qstr(n, e); while (n % 2 == 0) { n /= 2; --e; } char b[48]; snprintf(b, 48, "%lld %d", n, e + gWShift); return b; }
 static std::string genBody(SplitMix &g, bool dyadic, int mode, bool wantPen, bool anchored) {
   std::ostringstream s;
   int nc = (int)g.uni(1, 6);
@@ -199,7 +258,7 @@ static std::string genBody(SplitMix &g, bool dyadic, int mode, bool wantPen, boo
     int nmov = std::max(1, np - nfix);
     if (!fx && nmov < 2) nmov = 2;
     s << " " << nmov << " ";
-    if (dyadic) s << qstr(g.uni(1, 12), (int)g.uni(0, 3)); else s << qstr(g.uni(1 << 12, 1 << 20), 17);   // weight: k/2^j, or in (0.03, 8)
+    if (dyadic) s << qstrw(g.uni(1, 12), (int)g.uni(0, 3)); else s << qstrw(g.uni(1 << 12, 1 << 20), 17);   // weight: k/2^j, or in (0.03, 8)
     bool allsame = g.coin(5); int c0 = (int)g.uni(0, nc - 1);
     for (int j = 0; j < nmov; ++j) {
       int c = allsame ? c0 : (g.coin(8) ? -1 : (int)g.uni(0, nc - 1));
@@ -220,8 +279,8 @@ static std::string genBody(SplitMix &g, bool dyadic, int mode, bool wantPen, boo
   if (pen) {
     if (dyadic) s << " " << (1LL << g.uni(0, 6)) << " 0"; else s << " " << qstr(g.uni(410, 409600), 12);     // cutoff in {1..64} / [0.1, 100]
     for (int i = 0; i < nc; ++i) {
-      if (dyadic) { long long dd = g.coin(30) ? 0 : (1LL << g.uni(0, 4)) * (g.coin(50) ? 1 : -1); s << " " << (plI[i] + dd) << " 0 " << qstr(g.uni(1, 12), 2); }
-      else s << " " << qstr(plI[i] + g.uni(-30 * 1024, 30 * 1024), 10) << " " << qstr(g.uni(1 << 10, 1 << 19), 17);
+      if (dyadic) { long long dd = g.coin(30) ? 0 : (1LL << g.uni(0, 4)) * (g.coin(50) ? 1 : -1); s << " " << (plI[i] + dd) << " 0 " << qstrw(g.uni(1, 12), 2); }
+      else s << " " << qstr(plI[i] + g.uni(-30 * 1024, 30 * 1024), 10) << " " << qstrw(g.uni(1 << 10, 1 << 19), 17);
     }
   }
   return s.str();
@@ -230,12 +289,25 @@ static std::string genBody(SplitMix &g, bool dyadic, int mode, bool wantPen, boo
 int main(int argc, char **argv) {
   std::string mode = argc > 1 ? argv[1] : "run";
   if (mode == "gen") {
-    std::string what = argv[2]; SplitMix g((uint64_t)atoll(argv[3]) * 7919 + (what == "asm" ? 1 : what == "solve" ? 2 : 3)); int count = atoi(argv[4]);
+    std::string what = argv[2]; SplitMix g((uint64_t)atoll(argv[3]) * 7919 + (what == "asm" ? 1 : what == "solve" ? 2 : what == "fasm" ? 4 : 3)); int count = atoi(argv[4]);
     if (what == "asm") {
       for (int i = 0; i < count; ++i) {
         bool dy = g.coin(60); int m = (int)g.uni(0, 6);
         bool pen = (m >= 1 && m <= 4) && g.coin(50);
         printf("ASM %s\n", genBody(g, dy, m, pen, false).c_str());
+      }
+    } else if (what == "fasm") {
+      // general (non-dyadic) floats: every operation rounds; weights around 1 (40 %), tiny (2^-100 .. 2^-124, 40 %) or huge (2^100, 20 %);
+      // the factor 2^k keeps most scaled weights normal but pushes some products / quotients into the subnormal range or to overflow
+      for (int i = 0; i < count; ++i) {
+        bool dy = g.coin(15); int m = (int)g.uni(0, 6);
+        bool pen = (m >= 1 && m <= 4) && g.coin(50);
+        int cls = (int)g.uni(0, 9), k;
+        if (cls < 4) { gWShift = 0; k = g.coin(70) ? (int)g.uni(-24, 24) : (g.coin(50) ? (int)g.uni(-135, -100) : (int)g.uni(100, 127)); }
+        else if (cls < 8) { gWShift = (int)g.uni(100, 124); k = g.coin(60) ? (int)g.uni(-6, 12) : (int)g.uni(-30, 30); }
+        else { gWShift = -(int)g.uni(90, 110); k = g.coin(60) ? (int)g.uni(-12, 12) : (int)g.uni(10, 30); }
+        printf("FASM %d %s\n", k, genBody(g, dy, m, pen, false).c_str());
+        gWShift = 0;
       }
     } else if (what == "solve") {
       for (int i = 0; i < count; ++i) {
@@ -274,6 +346,8 @@ int main(int argc, char **argv) {
     try {
       if (tag == "ASM") runAsm(r);
       else if (tag == "SOLVE") runSolve(r);
+      else if (tag == "FASM") runFasm(r);
+      else if (tag == "SOLVEK") runSolveK(r);
       else if (tag == "PLACE") runPlace(r);
       else printf("ERR unknown tag\n");
     } catch (std::exception &ex) { printf("THROW %s\n", ex.what()); }
